@@ -328,7 +328,7 @@ class C10(Check):
     ]
 
     def runs(self, tier):
-        return 4000 if tier == "quick" else 2000000
+        return 20000 if tier == "quick" else 2000000
 
     def make(self, ctx, index):
         rng = core.rng_for(ctx.seed, "c10", index)
